@@ -509,6 +509,41 @@ func run(c *mon.Ctx) {
 		})
 		c.Class("concurrent-decoders")
 	})
+	// ---- one decoded PMT read by several goroutines at once (its getters only read it)
+	c.Stream("concurrent-readers-of-one-pmt", c.N(8, 200), func(i int, r *gen.Rand) {
+		c.ConcurrentReaders("decoded PMT", c.N(300, 300), r, func(q *gen.Rand) func() string {
+			p := ref.GenPMT(q, 3+q.Intn(10))
+			m, err := psi.NewPMT(append(ref.PointerPrefix(q.Intn(3)), p.Section()...))
+			if err != nil || m == nil {
+				return func() string { return fmt.Sprintf("a well-formed payload was rejected: %v", err) }
+			}
+			return func() string {
+				pids, ess := m.Pids(), m.ElementaryStreams()
+				if len(pids) != len(p.Streams) || len(ess) != len(p.Streams) || m.VersionNumber() != p.Version || m.CurrentNextIndicator() != p.CurrentNext {
+					return fmt.Sprintf("%d PIDs / %d streams / version %d read, the section has %d streams, version %d", len(pids), len(ess), m.VersionNumber(), len(p.Streams), p.Version)
+				}
+				for k, st := range p.Streams {
+					if pids[k] != st.PID || ess[k] == nil || ess[k].ElementaryPid() != st.PID || ess[k].StreamType() != st.Type || !m.PIDExists(st.PID) {
+						return fmt.Sprintf("stream %d read with other values than encoded", k)
+					}
+					ds := ess[k].Descriptors()
+					if len(ds) != len(st.Descs) {
+						return fmt.Sprintf("stream %d: %d descriptors read, %d encoded", k, len(ds), len(st.Descs))
+					}
+					for j, d := range ds {
+						if d == nil || d.Tag() != st.Descs[j].Tag {
+							return fmt.Sprintf("stream %d descriptor %d: missing or other tag than encoded", k, j)
+						}
+						if b, found := rawBody(d); found && !bytes.Equal(b, st.Descs[j].Body) {
+							return fmt.Sprintf("stream %d descriptor %d: other body than encoded", k, j)
+						}
+					}
+				}
+				return ""
+			}
+		})
+		c.Class("concurrent-readers-of-one-pmt")
+	})
 	// ---- table header codec: encode then decode is the identity (exhaustive), reserved bits '11'
 	c.Exhaustive("TableHeader: table id 256 x syntax 2 x private 2 x section_length 4096 (12 bits)", 256*4*4096)
 	c.StreamSeedless("table-header", 256, func(id int, r *gen.Rand) {
